@@ -515,8 +515,25 @@ func TestC08Project(t *testing.T) {
 				k := rapid.IntRange(1, len(perm)).Draw(t, "k")
 				cols := append([]string(nil), perm[:k]...)
 				if rapid.IntRange(0, 7).Draw(t, "unknown") == 0 {
-					cols[rapid.IntRange(0, k-1).Draw(t, "pos")] = "nosuchcol"
-					wantErr = true
+					pos := rapid.IntRange(0, k-1).Draw(t, "pos")
+					// a name nobody has, or a known name with a blank in front or behind it, or in another letter case: no such column
+					unk := "nosuchcol"
+					switch rapid.IntRange(0, 4).Draw(t, "unknownkind") {
+					case 1:
+						unk = cols[pos] + " "
+					case 2:
+						unk = " " + cols[pos]
+					case 3:
+						if up := strings.ToUpper(cols[pos]); up != cols[pos] {
+							unk = up
+						} else if lo := strings.ToLower(cols[pos]); lo != cols[pos] {
+							unk = lo
+						}
+					}
+					if in.Find(unk) < 0 {
+						cols[pos] = unk
+						wantErr = true
+					}
 				}
 				req = fmt.Sprintf("Select(%q)", cols)
 				run(func() { res = cur.Select(cols...) })
